@@ -42,10 +42,14 @@ def build(mt):
         o2 = wrec.observe(w2, c, mt['lanes'], enc, lines=lines)
         rec['sh'] = dict(d=mt['shift'], waves=o2['waves'], port=o2['port'])
         sc = [[scale_img(im, mt['scale']) for im in row] for row in mt['inw']]
-        w3 = wrec.run_wave(cls, c, d * mt['scale'], mt['lanes'], mt['caps'], sc, reuse=mt['reuse'], strip=mt['strip'])
-        o3 = wrec.observe(w3, c, mt['lanes'], enc, lines=lines)
-        rec['sc'] = dict(f=mt['scale'], waves=o3['waves'], port=o3['port'])
-        rec['offgrid'] = enc.offgrid
+        # the scaled run may in addition be scaled DOWN by a power of two (units of 1/sden, exact in floating point)
+        sden = mt.get('sden', 1)
+        sc = [[[v / sden if -wrec.INF < v < wrec.INF else v for v in im] for im in row] for row in sc]
+        w3 = wrec.run_wave(cls, c, d * np.float32(mt['scale'] / sden), mt['lanes'], mt['caps'], sc, reuse=mt['reuse'], strip=mt['strip'])
+        enc3 = wrec.Enc(mul=float(sden))
+        o3 = wrec.observe(w3, c, mt['lanes'], enc3, lines=lines)
+        rec['sc'] = dict(f=mt['scale'], den=sden, waves=o3['waves'], port=o3['port'])
+        rec['offgrid'] = enc.offgrid or enc3.offgrid
     except Exception as e:
         rec['raised'] = True
         rec['err'] = repr(e)[:300]
@@ -68,8 +72,8 @@ def make(ck, rnd, n):
                         d[:, l.index] = 0
         mt = dict(circuit=gen.circuit_state(c), lanes=lanes, delays=d.tolist(), poldep=poldep, caps=rnd.choice([8, 16, 16]),
                   inw=wrec.rand_inputs(rnd, c, lanes, multi=True, tmax=12), cls=rnd.choice(['WaveSim', 'WaveSimCuda']),
-                  reuse=reuse, strip=strip, shift=rnd.choice([1, 16, 100, 1000]), scale=rnd.choice([2, 4, 8]))
-        mt['desc'] = '%s poldep=%s reuse=%s strip=%s shift=%d scale=%d' % (mt['cls'], poldep, reuse, strip, mt['shift'], mt['scale'])
+                  reuse=reuse, strip=strip, shift=rnd.choice([1, 16, 100, 1000]), scale=rnd.choice([2, 4, 8]), sden=rnd.choice([1, 1, 2 ** 10, 2 ** 20, 2 ** 24]))
+        mt['desc'] = '%s poldep=%s reuse=%s strip=%s shift=%d scale=%d/%d' % (mt['cls'], poldep, reuse, strip, mt['shift'], mt['scale'], mt['sden'])
         recs.append(build(mt))
         metas.append(mt)
     return recs, metas
